@@ -1087,6 +1087,19 @@ def h_wrapping(ip, fr, func, args, tys, dty, m):
     return r
 
 
+@_h(r"^core::num::<impl (u\d+|usize)>::wrapping_neg$")
+def h_wrapping_neg(ip, fr, func, args, tys, dty, m):
+    """x.wrapping_neg() = 0.wrapping_sub(x): same wrap machinery as wrapping_sub"""
+    ty = m.group(1)
+    b = ip.force(args[0])
+    if isinstance(b, int):
+        return ip.wrap(0 - b, ty)
+    ex = ip.arith("Sub", 0, b, ty)
+    r = ip.wrap_known(ex, ty, "Sub", 0, b)
+    ip.ctx.notes.append(("wrapping_neg", r, 0, b))
+    return r
+
+
 @_h(r"^core::num::<impl (u\d+|usize)>::from_le_bytes$")
 def h_from_le(ip, fr, func, args, tys, dty, m):
     ty = m.group(1)
